@@ -273,6 +273,13 @@ impl PeerHandler {
             self.trigger_cmd_sync_stats().await?;
         }
         self.stats.shift();
+
+        // Peer doesn't choke us, but nothing is downloaded from him. Meantime some piece could be
+        // released by other peer (disconnected or choked us), so ask manager again.
+        if self.handshake_done && !self.peer_state.choked && self.piece_rx.is_none() {
+            self.trigger_cmd_recv_unchoke().await?;
+        }
+
         Ok(())
     }
 
